@@ -188,6 +188,18 @@ func (e *Eng) RunQuery(graph string, stmts []*gripql.GraphStatement, deadline ti
 }
 
 // RunOn runs a traversal on any GraphInterface.
+// SafeCompile compiles with the graph's compiler; a panic inside Compile is an outcome, not the
+// end of the harness.
+func SafeCompile(g gdbi.GraphInterface, stmts []*gripql.GraphStatement) (pipe gdbi.Pipeline, err error, panicked string) {
+	defer func() {
+		if p := recover(); p != nil {
+			panicked = fmt.Sprint(p)
+		}
+	}()
+	pipe, err = g.Compiler().Compile(stmts, nil)
+	return
+}
+
 func RunOn(g gdbi.GraphInterface, stmts []*gripql.GraphStatement, workdir string, deadline time.Duration) (out QueryOutcome) {
 	defer func() {
 		if p := recover(); p != nil {
